@@ -135,10 +135,18 @@ func explainOutside(doc []byte, ls []int, l, col int) string {
 	}
 	// a docstring that starts with "/**/" and spans lines (D62) loses newlines: every later
 	// line number, and every column computed against a line start, is off
-	if i := strings.Index(string(doc), "/**/"); i >= 0 {
+	// (every occurrence is looked at: an earlier "/**/" may end on the same line — found by the
+	// thorough tier, where the first of three ended inside "/*/" and a later one spanned a line)
+	for from := 0; ; {
+		i := strings.Index(string(doc[from:]), "/**/")
+		if i < 0 {
+			break
+		}
+		i += from
 		if j := strings.Index(string(doc[i+4:]), "*/"); j >= 0 && strings.Contains(string(doc[i+4:i+4+j]), "\n") {
 			return "D62"
 		}
+		from = i + 1
 	}
 	o := ls[l-1] + col - 1
 	if o >= ls[l-1] && o <= len(doc) {
